@@ -91,6 +91,8 @@ pub struct Connection {
     
     /// Frames read behind a blocking command that blocked: executed once the client is unblocked
     pub deferred_frames: Vec<RespFrame>,
+    /// The malformed frame that ended the read in which a command blocked: answered after the deferred frames
+    pub deferred_protocol_error: Option<String>,
 }
 
 impl Connection {
@@ -119,6 +121,7 @@ impl Connection {
             is_monitoring: false,
             name: None,
             deferred_frames: Vec::new(),
+            deferred_protocol_error: None,
         })
     }
     
